@@ -1046,6 +1046,7 @@ func c03(c *Ctx) {
 	c03twoThirdsReal(c)
 
 	c03regressions(c)
+	c03ConfirmRace(c)
 	for iter := 0; iter < c.N; iter++ {
 		c03scenario(c)
 	}
